@@ -13,7 +13,8 @@
    each with a computed witness that the check replays on the real code (known findings). *)
 From Coq Require Import NArith ZArith Arith List Bool.
 From Pq Require Import Base.Bytes Base.Err Codec.Varint Codec.Zigzag Codec.Bitpack
-  Impl.CVarint Impl.CBitpack Proofs.CodecProofs Proofs.CBitpackProofs.
+  Codec.Hybrid Impl.CVarint Impl.CBitpack Impl.CRle Impl.CDelta
+  Proofs.CodecProofs Proofs.CBitpackProofs Proofs.CRleProofs Proofs.CVarintProofs.
 Import ListNotations.
 Open Scope N_scope.
 
@@ -58,6 +59,36 @@ Theorem C11_read_bitpacked_correct : forall w g isz cap input,
         d_written := isz * N.min (8 * g) (cap / isz) |}.
 Proof. exact read_bitpacked_correct. Qed.
 Print Assumptions C11_read_bitpacked_correct.
+
+(* cencoding.read_rle: an RLE run of any width 0..32, any count, any output capacity *)
+Theorem C11_read_rle_correct : forall w count isz cap input,
+  w <= 32 -> isz = 1 \/ isz = 4 -> count < 2 ^ 31 ->
+  bytes_ok input -> vbytes w <= N.of_nat (length input) ->
+  c_read_rle input (Z.of_N (2 * count)) w cap isz =
+  Ok {| d_vals := repeat (tr isz (le2n (firstn (N.to_nat (vbytes w)) input))) (N.to_nat (N.min count (cap / isz)));
+        d_used := vbytes w;
+        d_written := isz * N.min count (cap / isz) |}.
+Proof. exact read_rle_correct. Qed.
+Print Assumptions C11_read_rle_correct.
+
+(* cencoding.read_unsigned_var_int: whatever the spec decoder reads as a uint64 from <= 10 bytes *)
+Theorem C11_varint_correct : forall inp v rest,
+  bytes_ok inp -> uleb_dec inp = Some (v, rest) -> v < 2 ^ 64 ->
+  (length inp - length rest <= 10)%nat ->
+  c_varint inp = Ok (v, N.of_nat (length inp - length rest)).
+Proof. exact varint_correct. Qed.
+Print Assumptions C11_varint_correct.
+
+Theorem C11_varint_reads_spec_encoding : forall n rest,
+  n < 2 ^ 64 -> bytes_ok rest ->
+  c_varint (uleb_enc n ++ rest) = Ok (n, N.of_nat (length (uleb_enc n))).
+Proof. exact varint_reads_spec_encoding. Qed.
+Print Assumptions C11_varint_reads_spec_encoding.
+
+(* cencoding.zigzag_long on the uint64 domain *)
+Theorem C11_zigzag_long_correct : forall n, n < 2 ^ 64 -> s64 (c_zigzag_long n) = zz_dec n.
+Proof. exact zigzag_long_correct. Qed.
+Print Assumptions C11_zigzag_long_correct.
 
 (* ---- refuted parts of the full statement (known findings, replayed on the real code) ---- *)
 (* the same statement with the width bound of the format (w <= 32) instead of 24 is false *)
